@@ -34,8 +34,8 @@ def render(e, pow_sym="^"):
         if op == "id":
             return t[1], 9
         p = _PREC[op]
-        if op == "sub" and t[1][0] == "num" and list(t[1][1]) == [0, 1] and t[2][0] == "pow":
-            # 0 - x^n is written with a unary minus, "-x^n": the minus applies to the power (templates "negsq")
+        if op == "sub" and t[1][0] == "num" and list(t[1][1]) == [0, 1] and t[2][0] in ("pow", "mul"):
+            # 0 - x^n and 0 - a*b are written with a unary minus, "-x^n" / "-a*b" (templates "negsq", "negsum")
             b, pb = go(t[2])
             return "-" + b, _PREC["add"]
         a, pa = go(t[1])
